@@ -81,9 +81,9 @@ package mqtt
 // Content invariants of the token channels: every sender is obliged to them,
 // every receiver may rely on them.
 //@ chaninv mqtt.Client.writeSem(v): v != nil
-// Exchange channels stay open while queued (closed only by the read routine after popping);
+// Exchange channels stay open, one-slot and empty while queued (answered only by the read routine after popping);
 // a ping callback is an open one-slot channel that nobody has answered yet.
-//@ chaninv mqtt.outbound.queue(v): v != nil && !closed(v)
+//@ chaninv mqtt.outbound.queue(v): v != nil && !closed(v) && cap(v) == 1 && len(v) == 0
 //@ chaninv mqtt.Client.pingAck(v): v != nil && !closed(v) && cap(v) == 1 && len(v) == 0
 
 // A registered callback channel is touched only by the read routine when it removes the entry.
@@ -860,3 +860,22 @@ package mqtt
 //@ ensures[C14] err == nil || denied(err) || ended(err) ==> ch == nil
 //@ ensures[C14] err != nil && !denied(err) && !ended(err) && !Is(err, ErrMax) && as(err, SubscribeError) ==> ch == nil
 //@ ensures[C14,C10] err != nil && !denied(err) && !ended(err) && !Is(err, ErrMax) && !as(err, SubscribeError) ==> ch != nil
+
+// termCallbacks (after ReadSlices saw ErrClosed): each publish level is terminated once, by whoever gets the
+// sequence token first: the token channel and the exchange queue are closed and every exchange still queued
+// receives an error of the ErrClosed class, without blocking.
+//@ func mqtt.(*Client).termCallbacks$1
+//@ requires c.atLeastOnce.seqSem != nil && cap(c.atLeastOnce.seqSem) == 1 && (closed(c.atLeastOnce.seqSem) ==> len(c.atLeastOnce.seqSem) == 0) && c.atLeastOnce.queue != nil && (!closed(c.atLeastOnce.seqSem) ==> !closed(c.atLeastOnce.queue))
+//@ loop 1: modifies chanstate(c.atLeastOnce.queue), region("chan.len.error"), region("chan.q.error"), region("chan.head.error")
+//@ loop 1: invariant closed(c.atLeastOnce.queue)
+//@ at[C12] send ch#1: assert Is(v, ErrClosed)
+//@ ensures[C12] closed(c.atLeastOnce.seqSem) && len(c.atLeastOnce.seqSem) == 0
+//@ ensures[C12] old(len(c.atLeastOnce.seqSem)) == 1 ==> closed(c.atLeastOnce.queue) && len(c.atLeastOnce.queue) == 0
+
+//@ func mqtt.(*Client).termCallbacks$2
+//@ requires c.exactlyOnce.seqSem != nil && cap(c.exactlyOnce.seqSem) == 1 && (closed(c.exactlyOnce.seqSem) ==> len(c.exactlyOnce.seqSem) == 0) && c.exactlyOnce.queue != nil && (!closed(c.exactlyOnce.seqSem) ==> !closed(c.exactlyOnce.queue))
+//@ loop 1: modifies chanstate(c.exactlyOnce.queue), region("chan.len.error"), region("chan.q.error"), region("chan.head.error")
+//@ loop 1: invariant closed(c.exactlyOnce.queue)
+//@ at[C12] send ch#1: assert Is(v, ErrClosed)
+//@ ensures[C12] closed(c.exactlyOnce.seqSem) && len(c.exactlyOnce.seqSem) == 0
+//@ ensures[C12] old(len(c.exactlyOnce.seqSem)) == 1 ==> closed(c.exactlyOnce.queue) && len(c.exactlyOnce.queue) == 0
